@@ -339,6 +339,13 @@ def run_case(case):
                 and presolve_off_agrees(inst, r["s"], cls, base):
             # classified: with HiGHS' presolve switched off this setting agrees with the baseline => solver (trusted base) defect, keyed as such
             viol.append({"sig": f"C05/options-change-result/solver-presolve-defect/{cls}", "msg": f"all-off: solved={base['solved']} obj={base['obj']}; with {on}: solved={r['solved']} obj={r['obj']}, but the same setting with presolve='off' agrees with the baseline; {desc}"})
+        elif (r["solved"] != base["solved"] or (r["obj"] != base["obj"] and not (isinstance(r["obj"], (int, float)) and isinstance(base["obj"], (int, float)) and models.num_close(r["obj"], base["obj"])))) \
+                and presolve_off_agrees(inst, base["s"], cls, r) and presolve_off_agrees(inst, r["s"], cls, r):
+            # the same mechanism on the other side: it is the ALL-OFF baseline whose status HiGHS' presolve got wrong (e.g. an integer edge-count variable
+            # with the fractional upper bound 1.5 of known finding (a), declared kInfeasible by presolve only): with presolve='off' the baseline agrees with
+            # this setting, and this setting agrees with itself => under the trusted solver behaviour the options change nothing
+            obs["c05.baseline_side_presolve_classified"] += 1
+            viol.append({"sig": f"C05/options-change-result/solver-presolve-defect/{cls}", "msg": f"all-off: solved={base['solved']} obj={base['obj']}; with {on}: solved={r['solved']} obj={r['obj']}, but the all-off baseline with presolve='off' agrees with this setting (and so does the setting itself); {desc}"})
         elif r["solved"] != base["solved"]:
             viol.append({"sig": f"C05/solvability-depends-on-options/{cls}/" + "+".join(on)[:150], "msg": f"all-off: solved={base['solved']} obj={base['obj']}; with {on}: solved={r['solved']} obj={r['obj']}; {desc}"})
         elif r["obj"] != base["obj"] and not (isinstance(r["obj"], (int, float)) and isinstance(base["obj"], (int, float)) and models.num_close(r["obj"], base["obj"])):
